@@ -182,6 +182,13 @@ func (sh c01Shapes) exact(format string, n int, rng *rand.Rand) []int {
 	return out
 }
 
+func c01Clip(t string) string {
+	if len(t) > 160 {
+		return t[:160] + "..."
+	}
+	return t
+}
+
 // c01LongShape: the number (1-based) of the shape whose identifier starts with 'l' (the long record), 0 if none
 func c01LongShape(shapes []c01Shape) int {
 	for i, s := range shapes {
@@ -559,6 +566,99 @@ func recordC01(env *Env) {
 			plans = append(plans, plan{fmt: format, target: s.k, offset: env.rng.Intn(len(s.text)), at: 128*c01MiB - 1,
 				total: 128*c01MiB + 50000, huge: true})
 		}
+	}
+	// with the feature-table option the readers keep the feature lines of every entry: what an entry gets must be
+	// what it gets when it is read alone (the content of a record depends on its own text only)
+	for _, format := range []string{"genbank", "embl"} {
+		shapes := sh[format]
+		if len(shapes) < 2 {
+			continue
+		}
+		recs := make([]int, 14)
+		for i := range recs {
+			recs[i] = 2 + env.rng.Intn(len(shapes)-1)
+		}
+		data, starts := sh.render(format, recs)
+		parser := obiformats.EmblChunkParser(true)
+		if format == "genbank" {
+			parser = obiformats.GenbankChunkParser(true)
+		}
+		ev := c01Event{Op: "read", Fmt: format, Via: "features", Workers: 1, Size: len(data), Cls: format + "/features", Target: []int{0, 0},
+			Recs: recs, Cuts: [][]int{}, Orders: []int{}, Got: []int{}, Serials: []int{}}
+		var whole obiseq.BioSequenceSlice
+		var perr error
+		func() {
+			defer func() {
+				if r := recover(); r != nil {
+					perr = fmt.Errorf("panic: %v", r)
+				}
+			}()
+			whole, perr = parser("verif", bytes.NewReader(data))
+		}()
+		if perr != nil || len(whole) != len(recs) {
+			ev.Status, ev.Why = 1, fmt.Sprintf("parsing %d entries with the feature table: %v, %d records", len(recs), perr, len(whole))
+		} else {
+			for i := range recs {
+				alone, err := parser("verif", bytes.NewReader(data[starts[i]:starts[i+1]]))
+				if err != nil || len(alone) != 1 {
+					ev.Status, ev.Why = 1, fmt.Sprintf("entry %d read alone: %v, %d records", i, err, len(alone))
+					break
+				}
+				if whole[i].Features() != alone[0].Features() {
+					ev.Status, ev.Why = 1, fmt.Sprintf("entry %d of %d (%s): its feature table read with its neighbours is %q, read alone %q",
+						i, len(recs), whole[i].Id(), c01Clip(whole[i].Features()), c01Clip(alone[0].Features()))
+					break
+				}
+			}
+		}
+		// the records themselves are not re-described here: an accepted event has status 0 and no record list
+		if ev.Status == 0 {
+			ev.Op = "features"
+		}
+		env.emit(ev)
+	}
+	// a small file read thousands of times with 2-8 parsing workers: the reader must deliver its records whatever
+	// the start-up order of its goroutines (a window of nanoseconds is met once in 10^3..10^4 reads)
+	for _, format := range []string{"fasta", "fastq"} {
+		shapes := sh[format]
+		if len(shapes) < 3 {
+			continue
+		}
+		recs := make([]int, 40)
+		for i := range recs {
+			recs[i] = 2 + env.rng.Intn(len(shapes)-2) // not the filler, not the long one
+		}
+		data, _ := sh.render(format, recs)
+		nrep := env.optInt("readstress", 20000)
+		var bad, worst int64 = 0, -1
+		parallel(nrep, 8, func(i int) {
+			var it obiiter.IBioSequence
+			var err error
+			opts := []obiformats.WithOption{obiformats.OptionsParallelWorkers(2 + i%7)}
+			if format == "fasta" {
+				it, err = obiformats.ReadFasta(bytes.NewReader(data), opts...)
+			} else {
+				it, err = obiformats.ReadFastq(bytes.NewReader(data), opts...)
+			}
+			n := 0
+			if err == nil {
+				for it.Next() {
+					n += len(it.Get().Slice())
+				}
+			}
+			if n != len(recs) {
+				atomic.AddInt64(&bad, 1)
+				atomic.StoreInt64(&worst, int64(n))
+			}
+		})
+		ev := c01Event{Op: "features", Fmt: format, Via: "readstress", Workers: 8, Size: len(data), Cls: format + "/readstress", Target: []int{0, 0},
+			Recs: recs, Cuts: [][]int{}, Orders: []int{}, Got: []int{}, Serials: []int{}}
+		if bad > 0 {
+			ev.Op, ev.Status = "read", 1
+			ev.Why = fmt.Sprintf("%d reads out of %d of the same %d-record %s text (2-8 parsing workers) did not deliver %d records (one of them: %d)",
+				bad, nrep, len(recs), format, len(recs), worst)
+		}
+		env.emit(ev)
 	}
 	dir := env.opt("dir", c01Tmp)
 	os.MkdirAll(dir, 0o755)
